@@ -125,7 +125,7 @@ impl PortableHash {
 
         let (len, _) = rest.split_at(core::mem::size_of::<u32>());
         let len = u32::from_le_bytes([len[0], len[1], len[2], len[3]]);
-        buffer.fill(&buffered[..(len as usize).min(buffered.len())]);
+        buffer.fill(&buffered[..(len as usize).min(PACKET_SIZE - 1)]);
 
         PortableHash {
             v0,
